@@ -171,9 +171,9 @@ pub mod sup;
 '''
 
 
-def render_shard(cases, run, extra_prelude=''):
+def render_shard(cases, run, extra_prelude='', prelude=None):
     """Returns (source text, [(first_line, last_line)] per case)."""
-    parts = [PRELUDE % SUPPORT_RS, extra_prelude]
+    parts = [PRELUDE % SUPPORT_RS if prelude is None else prelude, extra_prelude]
     line = sum(p.count('\n') for p in parts) + 1
     spans = []
     for i, c in enumerate(cases):
@@ -269,12 +269,13 @@ def _rustc_cmd(src, out, run, so, deps, cfgs=()):
 
 
 class ShardJob:
-    def __init__(self, sid, cases, run, wdir, extra_prelude=''):
+    def __init__(self, sid, cases, run, wdir, extra_prelude='', prelude=None):
         self.sid = sid
         self.cases = cases
         self.run = run
         self.wdir = wdir
         self.extra_prelude = extra_prelude
+        self.prelude = prelude
 
 
 def _do_shard(job, so, deps, compile_timeout, run_timeout, single_round=False):
@@ -293,7 +294,7 @@ def _do_shard(job, so, deps, compile_timeout, run_timeout, single_round=False):
             # sentinel: a request educe always refuses, placed last; its diagnostic proves that macro expansion
             # reached the end of the shard (a fatal parse error earlier would silently skip the remaining cases)
             cases = cases + [Case('sentinel', '#[derive(Educe)]\n#[educe(VerifSentinel)]\nstruct Sentinel;\n', run=False)]
-        text, spans = render_shard(cases, job.run and any(c.run for c in cases), job.extra_prelude)
+        text, spans = render_shard(cases, job.run and any(c.run for c in cases), job.extra_prelude, job.prelude)
         with open(src, 'w') as f:
             f.write(text)
         will_run = job.run and any(c.run for c in cases)
@@ -307,7 +308,7 @@ def _do_shard(job, so, deps, compile_timeout, run_timeout, single_round=False):
                 return results
             mid = len(live) // 2
             for part in (live[:mid], live[mid:]):
-                sub = ShardJob(job.sid, [job.cases[i] for i in part], job.run, job.wdir, job.extra_prelude)
+                sub = ShardJob(job.sid, [job.cases[i] for i in part], job.run, job.wdir, job.extra_prelude, job.prelude)
                 sub.sid = job.sid
                 rs = _do_shard(sub, so, deps, compile_timeout, run_timeout, single_round)
                 for i, r in zip(part, rs):
@@ -324,7 +325,7 @@ def _do_shard(job, so, deps, compile_timeout, run_timeout, single_round=False):
                     return results
                 mid = len(live) // 2
                 for part in (live[:mid], live[mid:]):
-                    sub = ShardJob(job.sid, [job.cases[i] for i in part], job.run, job.wdir, job.extra_prelude)
+                    sub = ShardJob(job.sid, [job.cases[i] for i in part], job.run, job.wdir, job.extra_prelude, job.prelude)
                     rs = _do_shard(sub, so, deps, compile_timeout, run_timeout, single_round)
                     for i, r in zip(part, rs):
                         results[i] = r
@@ -385,7 +386,7 @@ def _do_shard(job, so, deps, compile_timeout, run_timeout, single_round=False):
             r.fails.append('process died rc=%s %s' % (rc, se[-300:].replace('\n', ' | ')))
             rest = [idx2[m] for m in missing[1:]]
             if rest:
-                sub = ShardJob(job.sid, [job.cases[i] for i in rest], job.run, job.wdir, job.extra_prelude)
+                sub = ShardJob(job.sid, [job.cases[i] for i in rest], job.run, job.wdir, job.extra_prelude, job.prelude)
                 rs = _do_shard(sub, so, deps, compile_timeout, run_timeout)
                 for i, rr in zip(rest, rs):
                     results[i] = rr
@@ -397,7 +398,7 @@ def _do_shard(job, so, deps, compile_timeout, run_timeout, single_round=False):
 
 
 def rt_run(cases, run=True, shard_size=None, name='rt', compile_timeout=900, run_timeout=600, extra_prelude='',
-           keep=False, single_round=False):
+           keep=False, single_round=False, prelude=None):
     """Execute all cases on the real macro.  Returns list of CaseResult in input order."""
     so, deps = build_macro()
     if shard_size is None:
@@ -411,7 +412,7 @@ def rt_run(cases, run=True, shard_size=None, name='rt', compile_timeout=900, run
     wdir = os.path.join(BUILD, 'shards', '%s-%d' % (name, os.getpid()))
     shutil.rmtree(wdir, ignore_errors=True)
     os.makedirs(wdir)
-    jobs = [ShardJob(s, cases[s * size:(s + 1) * size], run, wdir, extra_prelude) for s in range(nshards)]
+    jobs = [ShardJob(s, cases[s * size:(s + 1) * size], run, wdir, extra_prelude, prelude) for s in range(nshards)]
     jobs = [j for j in jobs if j.cases]
     results = []
     t0 = time.time()
